@@ -175,6 +175,7 @@ Definition add_strs (st : est) (l : list bytes) : est :=
   mkest (e_mt st) (e_used st) (e_res st) (e_strs st ++ l) (e_scopes st) (e_warn st).
 Definition add_warn (st : est) (w : warn) : est :=
   mkest (e_mt st) (e_used st) (e_res st) (e_strs st) (e_scopes st) (w :: e_warn st).
+Definition warn_if (b : bool) (st : est) : est := if b then add_warn st WMixed else st.
 Definition push_scope (st : est) : est :=
   mkest (e_mt st) (e_used st) (e_res st) (e_strs st) ([] :: e_scopes st) (e_warn st).
 Definition pop_scope (st : est) : est :=
@@ -253,8 +254,15 @@ Definition key_conv (t : tyr) (e : expr) : eres expr :=
   | Open _ => EUnsup
   end.
 
-Definition is_i64 (e : expr) : bool :=
-  match e with ELen _ => false | EConv TInt TInt (ELen _) => false | _ => true end.
+Fixpoint is_i64 (e : expr) : bool :=
+  match e with ELen _ => false | EConv TInt TInt a => is_i64 a | _ => true end.
+
+(* a Bool reaching an instruction that pops a string, a Float or a Bool reaching
+   one that pops an int: the checker unifies through LeastUpperBound and lets
+   them through (same family as the mixed assignment) *)
+Definition is_boolt (t : tyr) : bool := match t with Known TBool => true | _ => false end.
+Definition not_intish (t : tyr) : bool :=
+  match t with Known TInt | Known TStr => false | _ => true end.
 
 (* a value used as a condition: bool, or an int64 *)
 Definition cond_fine (e : expr) (t : tyr) : bool :=
@@ -293,6 +301,7 @@ Fixpoint ex (e : pexpr) (st : est) {struct e} : eres (expr * tyr * est) :=
   | PStr s => let (sid, st1) := add_str st s in EOk (EStr sid s, Known TStr, st1)
   | PCap name =>
       match sym_lookup name (e_scopes st) with
+      | Some (_, _, _, Some TBool) => EUnsup
       | Some (_, pid, grp, Some t) => EOk (ECap pid grp t, Known t, st)
       | Some (_, _, _, None) => EUnsup
       | None => EReject
@@ -328,13 +337,13 @@ Fixpoint ex (e : pexpr) (st : est) {struct e} : eres (expr * tyr * est) :=
       let ta := refresh st2 ta in
       match ta, tb with
       | Open _, Open _ => EUnsup
-      | Open m, Known t => EOk (ECmp op t true a1 b1, Known TBool, pin st2 m t)
-      | Known t, Open m => EOk (ECmp op t true a1 b1, Known TBool, pin st2 m t)
+      | Open m, Known t => EOk (ECmp op t true a1 b1, Known TBool, warn_if (ty_eqb t TBool) (pin st2 m t))
+      | Known t, Open m => EOk (ECmp op t true a1 b1, Known TBool, warn_if (ty_eqb t TBool) (pin st2 m t))
       | Known x, Known y =>
           let t := lub x y in
           edo a2 <- conv_to x t a1;
           edo b2 <- conv_to y t b1;
-          EOk (ECmp op t true a2 b2, Known TBool, st2)
+          EOk (ECmp op t true a2 b2, Known TBool, warn_if (ty_eqb t TBool) st2)
       end
   | PAnd a b =>
       edo '(a1, ta, st1) <- ex a st;
@@ -361,7 +370,7 @@ Fixpoint ex (e : pexpr) (st : est) {struct e} : eres (expr * tyr * est) :=
       | Open _ => EUnsup
       | Known _ =>
           edo '(pid, st2) <- reg_pat pat true st1;
-          EOk (ESMatch neg a1 pid, Known TBool, st2)
+          EOk (ESMatch neg a1 pid, Known TBool, warn_if (is_boolt ta) st2)
       end
   | PGet m ks =>
       match nkeys_of m with
@@ -393,7 +402,7 @@ Fixpoint ex (e : pexpr) (st : est) {struct e} : eres (expr * tyr * est) :=
       end
   | PLen a =>
       edo '(a1, ta, st1) <- ex a st;
-      match ta with Open _ => EUnsup | Known _ => EOk (ELen a1, Known TInt, st1) end
+      match ta with Open _ => EUnsup | Known _ => EOk (ELen a1, Known TInt, warn_if (is_boolt ta) st1) end
   | PTolower a =>
       edo '(a1, ta, st1) <- ex a st;
       match ta with
@@ -405,7 +414,7 @@ Fixpoint ex (e : pexpr) (st : est) {struct e} : eres (expr * tyr * est) :=
       edo '(a1, ta, st1) <- ex a st;
       edo '(b1, tb, st2) <- ex b st1;
       match ta, tb with
-      | Known _, Known _ => EOk (EStrtol a1 b1, Known TInt, st2)
+      | Known _, Known _ => EOk (EStrtol a1 b1, Known TInt, warn_if (is_boolt ta || not_intish tb) st2)
       | _, _ => EUnsup
       end
   | PSubst a b c =>
@@ -413,7 +422,8 @@ Fixpoint ex (e : pexpr) (st : est) {struct e} : eres (expr * tyr * est) :=
       edo '(b1, tb, st2) <- ex b st1;
       edo '(c1, tc, st3) <- ex c st2;
       match ta, tb, tc with
-      | Known _, Known _, Known _ => EOk (ESubst a1 b1 c1, Known TStr, st3)
+      | Known _, Known _, Known _ =>
+          EOk (ESubst a1 b1 c1, Known TStr, warn_if (is_boolt ta || is_boolt tb || is_boolt tc) st3)
       | _, _, _ => EUnsup
       end
   | PRsubst pat b c =>
@@ -421,7 +431,7 @@ Fixpoint ex (e : pexpr) (st : est) {struct e} : eres (expr * tyr * est) :=
       edo '(b1, tb, st1) <- ex b st0;
       edo '(c1, tc, st2) <- ex c st1;
       match tb, tc with
-      | Known _, Known _ => EOk (ERsubst pid b1 c1, Known TStr, st2)
+      | Known _, Known _ => EOk (ERsubst pid b1 c1, Known TStr, warn_if (is_boolt tb || is_boolt tc) st2)
       | _, _ => EUnsup
       end
   | PTimestamp => EOk (ETimestamp, Known TInt, st)
@@ -433,7 +443,7 @@ with exs (ks : pexprs) (st : est) {struct ks} : eres (exprs * est) :=
   | PXCons e r =>
       edo '(e1, t, st1) <- ex e st;
       edo e2 <- key_conv t e1;
-      edo '(r1, st2) <- exs r st1;
+      edo '(r1, st2) <- exs r (warn_if (is_boolt t) st1);
       EOk (XCons e2 r1, st2)
   end
 .
@@ -538,9 +548,9 @@ Fixpoint es (s : pstmt) (st : est) {struct s} : eres (stmt * est) :=
       edo '(e1, te, st1) <- ex e st;
       match te with
       | Open _ => EUnsup
-      | Known _ =>
+      | Known t =>
           let (sid, st2) := add_str st1 layout in
-          if ok then EOk (SStrptime e1 sid layout, st2) else EReject
+          if ok then EOk (SStrptime e1 sid layout, warn_if (negb (ty_eqb t TStr)) st2) else EReject
       end
   | PSCond form c th =>
       edo '(c1, tc, st1) <- ex c (push_scope st);
